@@ -104,7 +104,10 @@ fn args_for(t: &Ty) -> Vec<Variable> {
                 }
                 out
             }
-            _ => eval_all(&["[]", "[1]", "[1, \"a\", 2.5]", "[\"x\", \"y\"]", "[[1], []]", "[(), true]"]),
+            _ => eval_all(&[
+                "[]", "[1]", "[1, \"a\", 2.5]", "[\"x\", \"y\"]", "[[1], []]", "[(), true]", "[\"\", \"a\", \"b\"]", "[\"a\", \"\", \"b\"]", "[\"a\", \"\"]", "[\"\", \"\"]", "[\"\"]",
+                "[\"\", 1, \"\", 2.5]",
+            ]),
         },
         Ty::Fun(ps, r) if ps.is_empty() => {
             // iterators
@@ -766,7 +769,7 @@ fn check_pure(path: &str, stats: &mut Stats) -> Verdict {
     };
     let _ = iter_items;
     let quiet = path.starts_with("std.io.print");
-    let _silence = quiet.then(Silence::new);
+    let mut capture = quiet.then(Capture::new);
     for (args, items) in arg_lists {
         stats.eval();
         let shown = format!("{args:?}");
@@ -774,7 +777,31 @@ fn check_pure(path: &str, stats: &mut Stats) -> Verdict {
             stats.nontrivial(&format!("{path}{shown}"));
         }
         let expected = documented(path, &args, items.as_deref());
+        let mut printed_want: Option<String> = None;
+        if let Some(c) = &mut capture {
+            let _ = c.take();
+        }
         let o = invoke(f, args.clone());
+        if let Some(c) = &mut capture {
+            // what reached stdout: the documented text (top-level rendering, elements joined by the
+            // separator) and a line end
+            let printed = c.take();
+            let want = match path {
+                "std.io.print" => render(&args[0], true),
+                "std.io.print_array" => match (&args[0], &args[1]) {
+                    (Variable::Array(a), Variable::String(sep)) => a.iter().map(|x| render(x, true)).collect::<Option<Vec<_>>>().map(|xs| xs.join(sep)),
+                    _ => None,
+                },
+                _ => None,
+            };
+            if let Some(want) = want {
+                stats.label("printed text compared with the documented text");
+                if printed != format!("{want}\n") {
+                    return fail(format!("C18:printed:{path}"), format!("{path}{shown} printed {printed:?}, documented output {:?}", format!("{want}\n")));
+                }
+                printed_want = Some(format!("{want}\n"));
+            }
+        }
         match &o {
             Outcome::Value(v) => {
                 if let Some(why) = ty::not_inhabits(v, &ret, 0) {
@@ -805,7 +832,14 @@ fn check_pure(path: &str, stats: &mut Stats) -> Verdict {
         {
             stats.eval();
             let program = format!("{path}({})", texts.join(", "));
-            match run::run_text(&program, true) {
+            let result = run::run_text(&program, true);
+            if let (Some(c), Some(want)) = (&mut capture, &printed_want) {
+                let printed = c.take();
+                if printed != *want {
+                    return fail(format!("C18:printed:{path}:language"), format!("`{program}` printed {printed:?}, documented output {want:?}"));
+                }
+            }
+            match result {
                 Outcome::Value(v) => {
                     if let Outcome::Value(w) = &o
                         && !same_value(&v, w)
@@ -827,25 +861,39 @@ fn check_pure(path: &str, stats: &mut Stats) -> Verdict {
 
 // ---------- redirection of the process's stdout / stdin (print*, cgetline) ----------
 
-struct Silence {
+struct Capture {
     saved: i32,
+    file: PathBuf,
 }
 
-impl Silence {
+impl Capture {
     fn new() -> Self {
         use std::io::Write;
         let _ = std::io::stdout().flush();
+        let file = scratch().join("stdout");
+        let c = std::ffi::CString::new(file.to_string_lossy().as_bytes()).expect("path");
         unsafe {
             let saved = libc::dup(1);
-            let null = libc::open(c"/dev/null".as_ptr(), libc::O_WRONLY);
-            libc::dup2(null, 1);
-            libc::close(null);
-            Silence { saved }
+            let fd = libc::open(c.as_ptr(), libc::O_WRONLY | libc::O_CREAT | libc::O_TRUNC | libc::O_APPEND, 0o600);
+            libc::dup2(fd, 1);
+            libc::close(fd);
+            Capture { saved, file }
         }
+    }
+
+    /// what was written to stdout since the last call
+    fn take(&mut self) -> String {
+        use std::io::Write;
+        let _ = std::io::stdout().flush();
+        let text = std::fs::read(&self.file).map(|b| String::from_utf8_lossy(&b).into_owned()).unwrap_or_default();
+        unsafe {
+            libc::ftruncate(1, 0);
+        }
+        text
     }
 }
 
-impl Drop for Silence {
+impl Drop for Capture {
     fn drop(&mut self) {
         use std::io::Write;
         let _ = std::io::stdout().flush();
